@@ -379,8 +379,8 @@ func ICMP6NeighborSolicitationMarshal(targetAddr netip.Addr, sourceLLA net.Hardw
 	// skip reserved 4 bytes
 	copy(b[8:], targetAddr.AsSlice())
 
-	// single option: SourceLLA option
-	b[24] = 2 // Target option
+	// single option: SourceLLA option (type 1, RFC 4861 section 4.3; type 2 is the target LLA option of an NA)
+	b[24] = 1 // Source link-layer address option
 	b[25] = 1 // len 8 bytes
 	copy(b[26:], sourceLLA)
 	return b, nil
